@@ -392,6 +392,10 @@ pub fn parent_main(engine: &dyn CaseEngine, args: &Args) -> Report {
                 }
                 rep.count("worker_deaths");
                 deaths += 1;
+                // the case was explored up to the point where the worker died (what the worker had counted since its last
+                // report is lost with it)
+                rep.evaluations += 1;
+                rep.distinct.insert(crate::rng::tag(&format!("case that ended with the death of its worker: {case:?}")));
                 // a tree on which case after case hangs is not explored further: every stuck case costs the
                 // whole watchdog time, and the run must end in bounded time with an inconclusive verdict
                 let give_up = watchdog_kills >= max_watchdog_kills || deaths >= max_deaths;
